@@ -23,7 +23,7 @@ VERIF = os.path.dirname(HERE)
 sys.path.insert(0, VERIF)
 
 from sim import checks as checks_mod  # noqa: E402
-from sim.core import jdump  # noqa: E402
+from sim.core import jdump, match_known  # noqa: E402
 
 PY = os.environ.get("VERIF_PYTHON", "/venv/bin/python")
 DEFAULT_SEEDS = {"quick": 20260928, "thorough": 20260929}
@@ -58,21 +58,6 @@ def load_known() -> list[dict]:
     with open(path) as f:
         data = json.load(f)
     return data.get("findings", [])
-
-
-def match_known(v: dict, known: list[dict]) -> dict | None:
-    for k in known:
-        if k.get("status") != "known":
-            continue  # "fixed" entries suppress nothing
-        if k["property"] != v["property"]:
-            continue
-        if k.get("clause") and k["clause"] != v["clause"]:
-            continue
-        pat = k.get("site_regex")
-        if pat and not re.search(pat, v.get("site", "")):
-            continue
-        return k
-    return None
 
 
 def run_workers(job: dict, nworkers: int, env: dict, timeout_s: float) -> tuple[list[dict], list[str]]:
@@ -224,6 +209,7 @@ def main() -> int:
         "hard_timeout_s": spec.get("hard_timeout_s", {}).get(args.tier, 3000),
         "no_shrink": args.no_shrink,
         "repo": repo,
+        "known": load_known(),
     }
     t0 = time.time()
     print(f"[{prop}] tier={args.tier} VERIF_SEED={seed} workers={nworkers} repo={repo}", flush=True)
